@@ -53,10 +53,10 @@ func (c *Conn) handleSearch(tag string, dec *imapwire.Decoder, numKind NumKind) 
 	for {
 		var err error
 		if atom != "" {
-			err = readSearchKeyWithAtom(&criteria, dec, atom)
+			err = readSearchKeyWithAtom(&criteria, dec, atom, 0)
 			atom = ""
 		} else {
-			err = readSearchKey(&criteria, dec)
+			err = readSearchKey(&criteria, dec, 0)
 		}
 		if err != nil {
 			return fmt.Errorf("in search-key: %w", err)
@@ -200,17 +200,27 @@ func maybeReadSearchKeyAtom(dec *imapwire.Decoder, ptr *string) bool {
 	})
 }
 
-func readSearchKey(criteria *imap.SearchCriteria, dec *imapwire.Decoder) error {
+// maxSearchKeyDepth is the maximum number of NOT and OR search keys a search
+// key can be nested in. Parenthesized lists are bounded by the decoder.
+const maxSearchKeyDepth = 1000
+
+// readSearchKey reads a search key. depth is the number of NOT and OR keys
+// the key is an operand of.
+func readSearchKey(criteria *imap.SearchCriteria, dec *imapwire.Decoder, depth int) error {
+	if depth >= maxSearchKeyDepth {
+		return newClientBugError("SEARCH keys are nested too deeply")
+	}
+
 	var key string
 	if maybeReadSearchKeyAtom(dec, &key) {
-		return readSearchKeyWithAtom(criteria, dec, key)
+		return readSearchKeyWithAtom(criteria, dec, key, depth)
 	}
 	return dec.ExpectList(func() error {
-		return readSearchKey(criteria, dec)
+		return readSearchKey(criteria, dec, depth)
 	})
 }
 
-func readSearchKeyWithAtom(criteria *imap.SearchCriteria, dec *imapwire.Decoder, key string) error {
+func readSearchKeyWithAtom(criteria *imap.SearchCriteria, dec *imapwire.Decoder, key string, depth int) error {
 	key = strings.ToUpper(key)
 	switch key {
 	case "ALL":
@@ -317,7 +327,7 @@ func readSearchKeyWithAtom(criteria *imap.SearchCriteria, dec *imapwire.Decoder,
 			return dec.Err()
 		}
 		var not imap.SearchCriteria
-		if err := readSearchKey(&not, dec); err != nil {
+		if err := readSearchKey(&not, dec, depth+1); err != nil {
 			return err
 		}
 		criteria.Not = append(criteria.Not, not)
@@ -326,13 +336,13 @@ func readSearchKeyWithAtom(criteria *imap.SearchCriteria, dec *imapwire.Decoder,
 			return dec.Err()
 		}
 		var or [2]imap.SearchCriteria
-		if err := readSearchKey(&or[0], dec); err != nil {
+		if err := readSearchKey(&or[0], dec, depth+1); err != nil {
 			return err
 		}
 		if !dec.ExpectSP() {
 			return dec.Err()
 		}
-		if err := readSearchKey(&or[1], dec); err != nil {
+		if err := readSearchKey(&or[1], dec, depth+1); err != nil {
 			return err
 		}
 		criteria.Or = append(criteria.Or, or)
